@@ -15,7 +15,8 @@ AllPairs == Pow2 \X Pow2
 \* random payloads (and of byte-lane sets) it adds for that size
 QuickPairs == { <<8, 8>>, <<16, 8>>, <<8, 16>>, <<32, 16>>, <<16, 64>>, <<64, 32>>, <<128, 8>>, <<8, 128>>, <<128, 128>> }
 TexPairs == AllPairs
-NRand(p) == IF Tier = "quick" THEN (IF p \in QuickPairs THEN 1 ELSE 0) ELSE 5
+NRand(p) == IF p[1] * p[2] >= 65536 THEN 1
+            ELSE IF Tier = "quick" THEN (IF p \in QuickPairs THEN 1 ELSE 0) ELSE 5
 NRandPal == IF Tier = "quick" THEN 1 ELSE 4
 PalSides == (1..16) \cup {17, 31, 32, 33, 63, 64}
 QuickPalSides == {1, 2, 3, 4, 5, 7, 8, 9, 12, 16, 17, 33, 64}
@@ -116,9 +117,24 @@ PalBytes(n, s) == [k \in 1..(2 * n) |-> PatByte(s, k + 500)]
 CI8Pat(w, h, n) == [k \in 1..CI8PayloadSize(w, h) |-> PatByte(w + h, k) % n]
 TplTex(w, h, payload, pal) == [name |-> <<>>, w |-> w, h |-> h, fmt |-> CI8, payload |-> payload, pal |-> pal]
 
+\* palette sizes at the ends of the 8-bit index range, and payloads that use both ends of it
+EdgePals == {1, 2, 255, 256}
+EdgeIdx(n, j) == CASE j = 0 -> 0 [] j = 1 -> 1 % n [] j = 2 -> (2 * n - 2) % n [] j = 3 -> n - 1
+\* the four left-most texels of every block row carry 0, 1, n-2, n-1, rotated per row
+CI8Edge(w, h, n) == [k \in 1..CI8PayloadSize(w, h) |->
+                       IF (k - 1) % 8 < 4 THEN EdgeIdx(n, (((k - 1) % 8) + ((k - 1) \div 8)) % 4)
+                       ELSE PatByte(w + 3 * h, k) % n]
+EdgeSizes == { <<4, 4>>, <<5, 3>>, <<9, 5>> }
+CropIndices(w, h, b) == { b[CI8Index(w, x, y) + 1] : x \in 0..(w - 1), y \in 0..(h - 1) }
+
 GenCases ==
   { <<"T-ctpk", f, p[1], p[2]>> : f \in Formats3DS, p \in TexPairs }
+  \* w * h = 65 536: beyond 16 bits (8-bit formats keep the payload at 64 KiB)
+  \cup { <<"T-ctpk", L8, 256, 256>>, <<"T-ctpk", A8, 512, 128>> }
   \cup { <<"T-tpl", w, h>> : w \in TplSides, h \in TplSides }
+  \cup { <<"T-tple", p[1], p[2], n>> : p \in { <<4, 4>>, <<13, 6>> }, n \in EdgePals }
+  \cup { <<"G-ci8e", p[1], p[2], n>> : p \in EdgeSizes, n \in EdgePals }
+  \cup { <<"G-idx", n>> : n \in EdgePals }
   \cup { <<"G-tex", f, p[1], p[2], pat>> : f \in PlainFormats, p \in GenTexSizes, pat \in {"pat", "pos"} }
   \cup { <<"G-rgb5a3", s>> : s \in 0..(IF Tier = "quick" THEN 3 ELSE 15) }
   \cup { <<"G-ci8", p[1], p[2]>> : p \in GenPalSizes }
@@ -136,6 +152,33 @@ Emit ==
                                   pal_at |-> TplPalExtents(v, TplCanonP)[1][1],
                                   img_at |-> TplExtents(v, TplCanonP)[1][1],
                                   img_len |-> CI8PayloadSize(w, h)]))
+    [] c[1] = "T-tple" ->
+         \* templates with 1, 2, 255, 256 palette entries; edge = the recorder puts the index range ends in
+         LET w == c[2]  h == c[3]  n == c[4]
+             v == << TplTex(w, h, Fill(CI8PayloadSize(w, h), 0), Fill(2 * n, 0)) >>
+         IN PrintT("T " \o ToJson([kind |-> "tpl", w |-> w, h |-> h, npal |-> n, nrand |-> NRandPal + 1, file |-> TplCanon(v),
+                                  pal_at |-> TplPalExtents(v, TplCanonP)[1][1],
+                                  img_at |-> TplExtents(v, TplCanonP)[1][1],
+                                  img_len |-> CI8PayloadSize(w, h)]))
+    [] c[1] = "G-ci8e" ->
+         LET w == c[2]  h == c[3]  n == c[4]
+             b == CI8Edge(w, h, n)  pal == PalBytes(n, w * h + n)
+             srcs == CI8Srcs(w, h, b, pal)
+         IN /\ Assert(CI8InDomain(w, h, b, pal), "generated palette image outside the domain")
+            /\ Assert({ EdgeIdx(n, j) : j \in 0..3 } \subseteq CropIndices(w, h, b), "index range ends not inside the crop")
+            /\ PrintT("G " \o ToJson([api |-> "tpl", fmt |-> CI8, w |-> w, h |-> h, payload |-> b, pal |-> pal,
+                                     file |-> TplCanon(<< TplTex(w, h, b, pal) >>),
+                                     lo |-> BoundOf(srcs, FALSE), hi |-> BoundOf(srcs, TRUE)]))
+    [] c[1] = "G-idx" ->
+         \* ColorFormat::decode_indexed: linear indices (both ends of the range first) and an RGBA palette;
+         \* texel i is exactly palette entry idx[i]
+         LET n == c[2]
+             idx == [i \in 1..64 |-> IF i <= 8 THEN EdgeIdx(n, (i - 1) % 4) ELSE PatByte(n, i) % n]
+             rgba == [q \in 1..(4 * n) |-> PatByte(n + 1, q + 900)]
+             px == [q \in 1..256 |-> rgba[4 * idx[((q - 1) \div 4) + 1] + ((q - 1) % 4) + 1]]
+         IN /\ Assert(IndexedOK(idx, rgba, px), "expected look-up inconsistent with IndexedOK")
+            /\ PrintT("G " \o ToJson([api |-> "indexed", fmt |-> CI8, w |-> 64, h |-> 1, payload |-> idx, pal |-> rgba,
+                                     file |-> <<>>, lo |-> px, hi |-> px]))
     [] c[1] = "G-tex" ->
          LET f == c[2]  w == c[3]  h == c[4]
              b == IF c[5] = "pos" THEN PosPayload(f, w, h) ELSE PatPayload(f, w, h)
